@@ -22,21 +22,31 @@ def _size(sc):
     return (len(sc["brs"]), sc["N"], sum(len(b["muts"]) for b in sc["brs"]))
 
 
-def check_isolation(sc, exp, found):
-    """Run one scenario on the real Split/Zip; exp[b] = pure values branch b yields alone."""
+def check_isolation(sc, exp, found, src_after=None, share=False):
+    """Run one scenario on the real Split/Zip; exp[b] = pure values branch b yields alone; src_after = the
+    flow values as the spec's machine leaves them (the last branch works on the caller's objects).
+    share: stateless elements are one object used in every branch, sequences partly nested."""
     drv = DRIVER[sc["drv"]]
 
     def report(kind, extra):
         key = "%s:%s" % (drv, kind)
         cur = found.get(key)
         if cur is None or _size(sc) < _size(cur["scenario"]):
-            found[key] = dict(extra, scenario=sc)
+            found[key] = dict(extra, scenario=sc, shared_elements=share)
 
     try:
-        per, values = al.run_scenario(sc["brs"], sc["N"], sc["bs"], sc["drv"], sc["rq"])
+        per, values = al.run_scenario(sc["brs"], sc["N"], sc["bs"], sc["drv"], sc["rq"], share=share)
     except Exception as exc:      # noqa
         report("raised:" + exc_name(exc), {"exception": repr(exc)[:300]})
         return None
+    # the caller's values: untouched, or changed by the one branch that is given the original (documented for
+    # the last branch of Split); never by several branches, never by Zip
+    if src_after is not None:
+        for j, v in enumerate(values):
+            now = al.pure(v)
+            if now != al.pure(al.flow_value(j + 1)) and now != al.norm_pure(src_after[j]):
+                report("callers-value-changed", {"index": j, "now": now, "allowed": al.norm_pure(src_after[j])})
+                break
     outs = []
     for b in range(1, len(sc["brs"]) + 1):
         want = [al.norm_pure(x) for x in exp[b - 1]]
@@ -144,7 +154,8 @@ def run(ctx):
     ctx.mc("Isolation", "Isolation_%s.cfg" % tag, coverage=True,
            must_cover=("ReadBlock", "BranchSrc", "BranchSeq", "BranchFC", "BranchFR", "BlockDone", "Final"))
     # sensitivity guards of the models (the quick tier runs one per model and the one-copy-per-call guard)
-    guards_a = (("Isolation_nocopy.cfg", "Isolated"), ("Isolation_shallow.cfg", "Isolated"))
+    guards_a = (("Isolation_nocopy.cfg", "Isolated"), ("Isolation_shallow.cfg", "Isolated"),
+                ("Isolation_eqlast.cfg", "Isolated"))
     guards_b = (("Alias_once.cfg", "Fresh"), ("Alias_nocopy.cfg", "Fresh"), ("Alias_nocopy2.cfg", "MutateIsLocal"))
     for cfg, prop in (guards_a if ctx.thorough else guards_a[1:]):
         res = ctx.mc("Isolation", cfg, expect_violation="report")
@@ -155,7 +166,8 @@ def run(ctx):
         res = ctx.mc("Alias", cfg, expect_violation="report")
         if res.violated != prop:
             raise core.MachineryError("the alias model is insensitive: %s did not refute %s" % (cfg, prop))
-    ctx.extra["sensitivity"] = ["Isolation with CopyMode none/shallow: TLC refutes Isolated",
+    ctx.extra["sensitivity"] = ["Isolation with CopyMode none/shallow, or the last branch recognised by == : "
+                                "TLC refutes Isolated",
                                 "Alias with CopyOnCompute = none: TLC refutes Fresh and MutateIsLocal; "
                                 "with one copy per call shared by its results: TLC refutes Fresh"]
     # ---- A, spec -> code
@@ -165,8 +177,12 @@ def run(ctx):
         if not rec["brs"]:
             continue
         sc = {k: rec[k] for k in ("brs", "N", "bs", "drv", "rq")}
-        check_isolation(sc, rec["exp"], found)
+        check_isolation(sc, rec["exp"], found, rec["src"], share=False)
         ctx.case(["isolation", sc], nontrivial=rec["N"] > 0 and len(rec["brs"]) > 1)
+        if len(rec["brs"]) > 1 and rec["N"] > 0:
+            # the same with stateless elements shared between the branches and nested sequences
+            check_isolation(sc, rec["exp"], found, rec["src"], share=True)
+            ctx.case(["isolation-shared-elements", sc])
     ctx.sample({"spec_behaviour_isolation": recs[len(recs) // 2]})
     # ---- A, code -> spec
     rnd = random.Random(ctx.seed)
@@ -174,7 +190,8 @@ def run(ctx):
     for _ in range(3000 if ctx.thorough else 500):
         sc = al.rand_scenario(rnd)
         try:
-            per, _values = al.run_scenario(sc["brs"], sc["N"], sc["bs"], sc["drv"], sc["rq"])
+            per, _values = al.run_scenario(sc["brs"], sc["N"], sc["bs"], sc["drv"], sc["rq"],
+                                           share=rnd.random() < 0.5)
         except Exception as exc:     # noqa
             key = "%s:raised:%s" % (DRIVER[sc["drv"]], exc_name(exc))
             if key not in found or _size(sc) < _size(found[key]["scenario"]):
@@ -254,7 +271,8 @@ def run(ctx):
         pending = [part for part in pending if part[0]["acc"] != bad["acc"]]
     return ctx.finish(
         rule="A (S2C): every scenario of the bounded Isolation model (branch lists over 11 templates of mutating "
-             "branches x flows x bufsizes x run/fill/request/Zip driving) executed on the real Split/Zip, every branch "
+             "branches, incl. repeated structurally equal branches in first/middle/last position, x flows x bufsizes x "
+             "run/fill/request/Zip driving, each also with stateless elements shared between branches) executed on the real Split/Zip, every branch "
              "compared with its isolated result when yielded and at the end; (C2S) seeded random configurations "
              "(<= 5 branches, random mutator chains) validated by Trace_Isolation.  B (S2C): every history "
              "fill/compute/mutate of the bounded Alias model replayed on 19 real accumulators (6 of them yielding two results per compute()) with the producer's and the "
